@@ -433,7 +433,7 @@ class ModbusUdpClient(BaseModbusClient):
         self.host = host
         self.port = port
         self.socket = None
-        self.timeout = kwargs.get('timeout', None)
+        self.timeout = kwargs.get('timeout', Defaults.Timeout)
         BaseModbusClient.__init__(self, framer(ClientDecoder(), self), **kwargs)
 
     @classmethod
